@@ -6,9 +6,19 @@ candle seeds, optional cut/tail for the sibling run, policy).  `run_item(item)` 
 final store snapshot, already encoded for TLC (ints / strings only; floats as float.hex()).
 
 Nothing here judges anything: it drives, records and encodes."""
-import random
+import random, signal
 import numpy as np
 from .. import session as S
+
+RUN_TIMEOUT = 60          # seconds per real backtest (a normal run takes < 1 s); a seeded change can make jesse loop forever
+
+
+class HarnessTimeout(BaseException):
+    """raised by SIGALRM inside a run; BaseException so that jesse's `except Exception` blocks do not swallow it"""
+
+
+def _on_alarm(sig, frm):
+    raise HarnessTimeout()
 
 TFM = {'1m': 1, '3m': 3, '5m': 5, '15m': 15, '30m': 30, '45m': 45, '1h': 60, '2h': 120, '4h': 240}
 SYMS = ['BTC-USDT', 'ETH-USDT']
@@ -194,11 +204,19 @@ def run_item(item):
     """one real backtest; returns dict(seq, fills, trades, balances, liq, exc, n_orders) - all TLC-readable"""
     cand, warm = build_candles(item)
     rec = SimRec(item).install()
+    old = signal.signal(signal.SIGALRM, _on_alarm)
+    signal.alarm(RUN_TIMEOUT)
     try:
         routes, data = routes_of(item)
         out = S.run_backtest(item['policy'], config_of(item), cand, routes=routes, data_routes=data,
                              fast=(item['mode'] == 'fast'), observe=rec.observe, warmup=warm)
+    except HarnessTimeout:
+        out = {'exc': 'HarnessTimeout: the backtest did not finish within %d s' % RUN_TIMEOUT, 'final': None}
+        del rec.seq[5000:]
+        del rec.fills[5000:]
     finally:
+        signal.alarm(0)
+        signal.signal(signal.SIGALRM, old)
         rec.uninstall()
     exc = 'none'
     if out['exc']:
